@@ -12,6 +12,7 @@ from __future__ import annotations
 import itertools
 import json
 import sys
+import time
 
 from . import common, par, pyrun
 from . import refmachine as rm
@@ -314,7 +315,8 @@ def clause_tt(clauses, nv):
 
 
 def clause_chunk(args):
-    lists, nv, stride = args
+    lists, nv, stride = args[:3]
+    checker = args[3] if len(args) > 3 else True
     from . import bridge
     import proof_generation.tautology as TT
     taut = TT.Tautology()
@@ -342,7 +344,7 @@ def clause_chunk(args):
                 out['viol'].append(({'stage': 'resolution', 'clauses': cl}, f'proof for {cl} concludes {pf.conc}'))
                 continue
             if n % stride == 0:
-                err = replay_thunk(taut, pf, pf.conc, through_checker=(n % (stride * 8) == 0))
+                err = replay_thunk(taut, pf, pf.conc, through_checker=(checker and n % (stride * 8) == 0))
                 out['replayed'] += 1
                 if err:
                     out['viol'].append(({'stage': 'resolution/replay', 'clauses': cl}, f'{cl}: {err}'))
@@ -377,6 +379,191 @@ def resolution_alg_chunk(args):
 
 
 # ------------------------------------------------------------------------------------------------
+# (4') stages driven directly: conjunctive-form trees and clauses that the formula grammars reach only at larger sizes
+# ------------------------------------------------------------------------------------------------
+
+def tree_shapes(n):
+    """binary tree shapes with n leaves: 'L' or (left, right)"""
+    if n == 1:
+        return ['L']
+    out = []
+    for k in range(1, n):
+        for a in tree_shapes(k):
+            for b in tree_shapes(n - k):
+                out.append((a, b))
+    return out
+
+
+LEAF_LABELLINGS = [
+    lambda k: (k % 3, k % 2 == 1),        # distinct neighbours, alternating signs
+    lambda k: (0 if k < 4 else 1, False),  # the same literal many times, then another one
+    lambda k: (k % 2, k >= 2),
+]
+
+
+def stage_specs(max_leaves_cnf: int, max_leaves_neg: int):
+    """('cnf', shape, ops bits, labelling) : And/Or trees, negation on leaves only -> to_cnf, to_clauses
+       ('neg', shape, flag bits, labelling): Or-only trees, negation flags on any node -> propag_neg, to_cnf, to_clauses"""
+    out = []
+    for n in range(1, max_leaves_cnf + 1):
+        for sh in tree_shapes(n):
+            for ops in range(2 ** (n - 1)):
+                for lab in range(len(LEAF_LABELLINGS)):
+                    out.append(('cnf', sh, ops, lab))
+    for n in range(1, max_leaves_neg + 1):
+        for sh in tree_shapes(n):
+            for flags in range(2 ** (2 * n - 1)):
+                out.append(('neg', sh, flags, 0))
+    return out
+
+
+def build_cf(spec, TT):
+    kind, sh, bits, lab = spec
+    leafc = [0]
+    nodec = [0]
+
+    def go(t):
+        if t == 'L':
+            k = leafc[0]
+            leafc[0] += 1
+            v, ng = LEAF_LABELLINGS[lab](k)
+            cf = TT.CFVar(v)
+            if kind == 'cnf':
+                cf.negated = ng
+            else:
+                cf.negated = bool((bits >> nodec[0]) & 1)
+                nodec[0] += 1
+            return cf
+        i = nodec[0]
+        nodec[0] += 1
+        a, b = go(t[0]), go(t[1])
+        if kind == 'cnf':
+            return (TT.CFAnd if (bits >> i) & 1 else TT.CFOr)(a, b)
+        cf = TT.CFOr(a, b)
+        cf.negated = bool((bits >> i) & 1)
+        return cf
+    return go(sh)
+
+
+def stage_chunk(args):
+    specs, stride = args[:2]
+    slow_replays = len(args) > 2 and args[2]
+    from . import bridge
+    P = bridge.P
+    import proof_generation.tautology as TT
+    taut = TT.Tautology()
+    out = {'evals': 0, 'stage_evals': 0, 'multi_clause': 0, 'replayed': 0, 'viol': []}
+
+    def bad(stage, spec, what):
+        out['viol'].append(({'stage': stage, 'tree': list(map(str, spec))}, f'{stage} on tree {spec}: {what}'))
+
+    def proofs(stage, spec, src, dst, p1, p2, do_replay):
+        if bridge.expand(p1.conc) != ('imp', src, dst) or bridge.expand(p2.conc) != ('imp', dst, src):
+            bad(stage, spec, f'proofs conclude {p1.conc} / {p2.conc}')
+            return
+        if do_replay:
+            for nm, pfx in (('pf1', p1), ('pf2', p2)):
+                err = replay_thunk(taut, pfx, pfx.conc, False)
+                out['replayed'] += 1
+                if err:
+                    bad(stage + '/replay', spec, f'{nm}: {err}')
+
+    for n, spec in specs:            # n: index of the input in the whole family (replays are chosen by it, not per chunk)
+        out['evals'] += 1
+        do_replay = (n % stride == 0)
+        try:
+            if spec[0] == 'clause':
+                _, cl, res = spec
+                cl = list(cl)
+                new, pf = taut.simplify_clause(list(cl), res)
+                out['stage_evals'] += 1
+                want = ([res] + [x for x in cl if x != res]) if res in cl else cl
+                if list(new) != want:
+                    bad('simplify_clause', spec, f'returns clause {new}, expected {want}')
+                wantc = bridge.expand(P.equiv(TT.clause_to_pattern(cl), TT.clause_to_pattern(want)))
+                if bridge.expand(pf.conc) != wantc:
+                    bad('simplify_clause', spec, f'proof concludes {pf.conc}')
+                elif do_replay and (len(cl) <= 3 or (slow_replays and len(cl) == 4 and n % (stride * 16) == 0)):
+                    # executing these proofs is slow (seconds for a five-literal clause): long clauses on a sparser stride
+                    err = replay_thunk(taut, pf, pf.conc, False)
+                    out['replayed'] += 1
+                    if err:
+                        bad('simplify_clause/replay', spec, err)
+                continue
+            if spec[0] == 'dups':
+                _, k, rest = spec
+                terms = [P.MetaVar(0)] * (k + 1) + [P.MetaVar(i) if i >= 0 else P.neg(P.MetaVar(-i)) for i in rest]
+                pf = taut.reduce_n_or_duplicates_at_front(k, list(terms))
+                out['stage_evals'] += 1
+                wantc = bridge.expand(P.equiv(TT.foldr_op(P._or, terms), TT.foldr_op(P._or, terms[k:])))
+                if bridge.expand(pf.conc) != wantc:
+                    bad('reduce_n_or_duplicates_at_front', spec, f'proof concludes {pf.conc}')
+                elif do_replay:
+                    err = replay_thunk(taut, pf, pf.conc, False)
+                    out['replayed'] += 1
+                    if err:
+                        bad('reduce_n_or_duplicates_at_front/replay', spec, err)
+                continue
+            cf = build_cf(spec, TT)
+            e1 = bridge.expand(TT.conj_to_pattern(cf))
+            if spec[0] == 'neg':
+                cf2, q1, q2 = taut.propag_neg(cf)
+                out['stage_evals'] += 1
+                e2 = bridge.expand(TT.conj_to_pattern(cf2))
+                sh = cf_shape(cf2, {'CFOr': False, 'CFAnd': False, 'CFVar': True}, TT)
+                if sh:
+                    bad('propag_neg', spec, f'shape: {sh}')
+                if table(e2) != table(e1):
+                    bad('propag_neg', spec, 'result is not equivalent')
+                proofs('propag_neg', spec, e1, e2, q1, q2, do_replay)
+            else:
+                cf2, e2 = cf, e1
+            cf3, r1, r2 = taut.to_cnf(cf2)
+            out['stage_evals'] += 1
+            e3 = bridge.expand(TT.conj_to_pattern(cf3))
+            if not is_cnf(cf3):
+                bad('to_cnf', spec, f'result {TT.conj_to_pattern(cf3)} is not in CNF')
+            if table(e3) != table(e2):
+                bad('to_cnf', spec, 'result is not equivalent')
+            proofs('to_cnf', spec, e2, e3, r1, r2, do_replay)
+            cls_, s1, s2 = taut.to_clauses(cf3)
+            out['stage_evals'] += 1
+            if len(cls_) > 1:
+                out['multi_clause'] += 1
+            e4 = bridge.expand(TT.clause_conjunctionto_pattern(cls_))
+            if table(e4) != table(e3):
+                bad('to_clauses', spec, f'{cls_} is not equivalent')
+            proofs('to_clauses', spec, e3, e4, s1, s2, do_replay)
+        except Exception as ex:  # noqa: BLE001
+            bad('stages', spec, f'raised {type(ex).__name__}: {str(ex)[:200]}')
+    return out
+
+
+def direct_specs(thorough: bool):
+    specs = stage_specs(5 if thorough else 4, 4 if thorough else 3)
+    if not thorough:
+        # the five-leaf disjunctions and five-leaf CNF trees with one conjunction at the root
+        specs += [('cnf', sh, ops, lab) for sh in tree_shapes(5) for ops in (0, 1) for lab in (0, 1)]
+    lits = (1, -1, 2, 3)
+    maxlen = 6 if thorough else 5
+    for n in range(1, maxlen + 1):
+        for cl in itertools.product(lits, repeat=n):
+            if n >= 5 and len(set(cl)) > 2:
+                continue       # long clauses: at most two distinct literals (many copies)
+            for res in (1, -1, 2):
+                specs.append(('clause', cl, res))
+    for k in range(0, 6 if thorough else 5):
+        for rest in ((), (1,), (1, 2), (-1,), (-1, 1, 2)):
+            specs.append(('dups', k, rest))
+    return specs
+
+
+def dispatch(item):
+    _, fn, arg = item
+    t0 = time.time()
+    out = globals()[fn](arg)
+    return out, time.time() - t0
+
 
 def merge(chk, res, prefix, agg):
     for out in res:
@@ -393,6 +580,13 @@ def replay(path: str) -> int:
     print(json.dumps(v['signature'], indent=1)[:2000])
     print(v.get('what'))
     sig = v['signature']
+    if 'tree' in sig:
+        import ast
+        spec = tuple(ast.literal_eval(x) if x[:1] in '(-0123456789' else x for x in sig['tree'])
+        out = stage_chunk(([(0, spec)], 1))
+        for s, w in out['viol']:
+            print('still failing:', w)
+        return 1 if out['viol'] else 0
     if sig['stage'].startswith('resolution'):
         out = clause_chunk(([sig['clauses']], 4, 1))
         for s, w in out['viol']:
@@ -410,33 +604,58 @@ def main(argv=None) -> int:
     common.build_harness()
     agg: dict = {}
     n = common.ncpu() * 6
+    work = []          # (prefix, function name, argument): one queue for all families, the slow ones first
+
+    def family(prefix, fn, items):
+        for it in items:
+            work.append((prefix, fn.__name__, it))
+
+    # fat clauses: one literal many times beside another one, resolved against unit clauses
+    # (executing these proofs takes 10-150 s each; the direct stage family covers the same helper functions
+    #  cheaply, this family covers them inside the algorithm)
+    fat = [[1] * 3 + [2], [-1] * 3 + [2]]
+    if thorough:
+        fat += [[1] * 4 + [2], [1] * 3 + [2, 2], [1] * 5 + [2], [1, 2, 1, 1], [2, 1, 1, 1]]
+    Lf = []
+    for c in fat:
+        a = c[0] if abs(c[0]) == 1 else c[1]
+        perms = list(itertools.permutations([c, [-a], [-2]]))
+        for perm in (perms if thorough else (perms[0], perms[-1])):
+            Lf.append([list(x) for x in perm])
+        Lf.append([list(c), [-a]])
+    family('clf_', clause_chunk, [([l], 3, 1, thorough) for l in Lf])
     leaves = 5 if thorough else 4
     F = formulas_imp(leaves)
     stride = 16 if thorough else 8
-    merge(chk, par.pmap(prover_chunk, [('imp', leaves, ch, stride) for ch in par.chunks(list(range(len(F))), n)]), 'imp_', agg)
+    family('imp_', prover_chunk, [('imp', leaves, ch, stride) for ch in par.chunks(list(range(len(F))), n)])
     conn = 3 if thorough else 2
     eqlv = 2 if thorough else 1
     G = formulas_notation(conn, eqlv)
-    merge(chk, par.pmap(prover_chunk, [('not', (conn, eqlv), ch, stride) for ch in par.chunks(list(range(len(G))), n)]), 'not_', agg)
-    # clause lists: all orders
-    L3 = list(clause_lists(3, 3, 2 if not thorough else 3))
-    if thorough:
-        L3 += [l for l in clause_lists(3, 4, 2) if len(l) == 4]
-    merge(chk, par.pmap(clause_chunk, [(ch, 3, 40) for ch in par.chunks(L3, n)]), 'cl3_', agg)
-    merge(chk, par.pmap(resolution_alg_chunk, [(ch, 3) for ch in par.chunks(L3, n)]), 'alg3_', agg)
+    family('not_', prover_chunk, [('not', (conn, eqlv), ch, stride) for ch in par.chunks(list(range(len(G))), n)])
     # literal sequences with repetition / arbitrary order inside the clause (proof construction paths)
     Lr = list(clause_lists(2, 2, 3 if thorough else 2, unique_sets=False))
     if not thorough:
         Lr += [[c] for c in clause_universe(2, 3) if len(c) == 3]
-    merge(chk, par.pmap(clause_chunk, [(ch, 3, 10) for ch in par.chunks(Lr, n)]), 'clr_', agg)
+    family('clr_', clause_chunk, [(ch, 3, 10) for ch in par.chunks(Lr, n)])
+    D = direct_specs(thorough)
+    family('dir_', stage_chunk, [(ch, 12 if not thorough else 8, thorough) for ch in par.chunks(list(enumerate(D)), n)])
+    # clause lists: all orders
+    L3 = list(clause_lists(3, 3, 2 if not thorough else 3))
+    if thorough:
+        L3 += [l for l in clause_lists(3, 4, 2) if len(l) == 4]
+    family('cl3_', clause_chunk, [(ch, 3, 40) for ch in par.chunks(L3, n)])
+    family('alg3_', resolution_alg_chunk, [(ch, 3) for ch in par.chunks(L3, n)])
     # all-trivial clause lists (every clause contains x and ~x): ordered selections of 4 and 5
     triv = [[1, -1], [2, -2], [3, -3], [-1, 1], [-2, 2], [1, 2, -1], [3, -2, 2]]
     Lt = [list(t) for k in (4, 5) for t in itertools.permutations(triv, k)] if thorough else \
         [list(t) for t in itertools.permutations(triv[:6], 4)] + [list(t) for t in itertools.permutations(triv[:5], 5)]
-    merge(chk, par.pmap(clause_chunk, [(ch, 3, 20) for ch in par.chunks(Lt, n)]), 'clt_', agg)
+    family('clt_', clause_chunk, [(ch, 3, 20) for ch in par.chunks(Lt, n)])
     L4 = [l for l in clause_lists(4, 3 if thorough else 2, 2)]
-    merge(chk, par.pmap(clause_chunk, [(ch, 4, 40) for ch in par.chunks(L4, n)]), 'cl4_', agg)
-    merge(chk, par.pmap(resolution_alg_chunk, [(ch, 4) for ch in par.chunks(L4, n)]), 'alg4_', agg)
+    family('cl4_', clause_chunk, [(ch, 4, 40) for ch in par.chunks(L4, n)])
+    family('alg4_', resolution_alg_chunk, [(ch, 4) for ch in par.chunks(L4, n)])
+    for (prefix, _, _), (out, secs) in zip(work, par.pmap(dispatch, work)):
+        merge(chk, [out], prefix, agg)
+        agg[prefix + 'cpu_s'] = round(agg.get(prefix + 'cpu_s', 0) + secs, 1)
     pyrun.cleanup()
     chk.set('evaluations', sum(v for k, v in agg.items() if k.endswith('_evals')))
     chk.set('distinct_nontrivial', sum(v for k, v in agg.items() if k.endswith('_taut') or k.endswith('_unsat')) + agg.get('imp_multi_clause', 0))
@@ -445,7 +664,7 @@ def main(argv=None) -> int:
     chk.set('exhaustive', True)
     chk.set('detail', agg)
     chk.set('bounds', {'imp_leaves': leaves, 'imp_formulas': len(F), 'notation_connectives': conn, 'notation_formulas': len(G),
-                       'clause_lists_3vars': len(L3), 'clause_seq_lists': len(Lr), 'clause_lists_4vars': len(L4)})
+                       'clause_lists_3vars': len(L3), 'fat_clause_lists': len(Lf), 'direct_stage_inputs': len(D), 'clause_seq_lists': len(Lr), 'clause_lists_4vars': len(L4)})
     chk.sample({'formula': str(F[len(F) // 2])})
     chk.sample({'notation_formula': str(G[len(G) // 2])})
     chk.sample({'clause_list': L3[len(L3) // 2]})
